@@ -3,6 +3,7 @@ import Pyunicorn.Lemmas.SimilarityIeee
 import Pyunicorn.Lemmas.SimilarityWeight
 import Pyunicorn.Lemmas.SimilarityHilbert
 import Pyunicorn.Lemmas.SimilarityRounding
+import Pyunicorn.Lemmas.SimilarityCoupled
 import Pyunicorn.Generated.ArithC09
 import Pyunicorn.Model.SimilarityScript
 /-!
@@ -1193,6 +1194,99 @@ but unlinked (`float_links_complete`); 1 − 2⁻²⁰ does not -/
 example : rn24 (1 - 1 / 2 ^ 30) = 1 ∧ rn24 (1 - 1 / 2 ^ 20) = 1 - 1 / 2 ^ 20 ∧
     rn24 (1 / 3) = 11184811 / 33554432 ∧ rn24 (-(1 / 3)) = -(11184811 / 33554432) ∧
     rn24 (3 / 2 ^ 150) = 4 / 2 ^ 150 := by decide +kernel
+
+/-! ## 10. `CoupledClimateNetwork`: the layer / cross-layer accessors (round 4)
+
+The accessors are `InteractingNetworks` methods (C11's model `Pyunicorn.Cross`, imported) applied to
+the adjacency the `ClimateNetwork` model holds; here they are proved to return the thresholded
+blocks of the similarity — for the constructed object and after every history. -/
+
+open Pyunicorn.Cross in
+/-- **`cross_layer_adjacency()`** of a consistent coupled network: entry `(i, j)` is 1 exactly when
+the (weighted) similarity of node `i` of layer 1 and node `j` of layer 2 exceeds the threshold -/
+theorem coupled_cross_layer_adjacency (N1 N2 : Nat) (s : Net) (hc : s.Consistent)
+    (hN : s.N = N1 + N2) :
+    crossLayerAdjacency N1 N2 s = (List.range N1).map fun i => (List.range N2).map fun j =>
+      b2n (decide (s.θ < weighted s.nonLocal s.S s.damp i (N1 + j))) := by
+  unfold crossLayerAdjacency nodes1 nodes2
+  rw [hc.1, hN, blockN_congr _ (fun a b => b2n (decide (s.θ < weighted s.nonLocal s.S s.damp a b)))]
+  · simp [List.map_map, Function.comp_def]
+  · intro a ha b hb
+    simp only [List.mem_range] at ha
+    simp only [List.mem_map, List.mem_range] at hb
+    obtain ⟨j, hj, rfl⟩ := hb
+    rw [adjOf_thresholdAdjacency _ _ _ _ _ (by omega) (by omega)]
+    have : a ≠ N1 + j := by omega
+    simp [this]
+
+open Pyunicorn.Cross in
+/-- **`adjacency_1()`**: the thresholded block of the first layer, zero diagonal -/
+theorem coupled_adjacency_1 (N1 N2 : Nat) (s : Net) (hc : s.Consistent) (hN : s.N = N1 + N2) :
+    adjacency1 N1 s = (List.range N1).map fun i => (List.range N1).map fun j =>
+      b2n (decide (i ≠ j ∧ s.θ < weighted s.nonLocal s.S s.damp i j)) := by
+  unfold adjacency1 internalAdjacency nodes1
+  rw [hc.1, hN]
+  apply blockN_congr
+  intro a ha b hb
+  simp only [List.mem_range] at ha hb
+  rw [adjOf_thresholdAdjacency _ _ _ _ _ (by omega) (by omega)]
+
+open Pyunicorn.Cross in
+/-- **`adjacency_2()`**: the thresholded block of the second layer, zero diagonal -/
+theorem coupled_adjacency_2 (N1 N2 : Nat) (s : Net) (hc : s.Consistent) (hN : s.N = N1 + N2) :
+    adjacency2 N1 N2 s = (List.range N2).map fun i => (List.range N2).map fun j =>
+      b2n (decide (i ≠ j ∧ s.θ < weighted s.nonLocal s.S s.damp (N1 + i) (N1 + j))) := by
+  unfold adjacency2 internalAdjacency nodes2
+  rw [hc.1, hN, blockN_congr _ (fun a b =>
+    b2n (decide (a ≠ b ∧ s.θ < weighted s.nonLocal s.S s.damp a b)))]
+  · simp only [List.map_map, Function.comp_def]
+    apply List.map_congr_left; intro i _
+    apply List.map_congr_left; intro j _
+    have : (N1 + i ≠ N1 + j) = (i ≠ j) := by
+      apply propext; constructor <;> intro h <;> omega
+    simp only [this]
+  · intro a ha b hb
+    simp only [List.mem_map, List.mem_range] at ha hb
+    obtain ⟨i, hi, rfl⟩ := ha
+    obtain ⟨j, hj, rfl⟩ := hb
+    rw [adjOf_thresholdAdjacency _ _ _ _ _ (by omega) (by omega)]
+
+open Pyunicorn.Cross in
+/-- **`number_cross_layer_links()`** counts the cross pairs above the threshold, and
+**`cross_link_density()`** is that count over `N₁·N₂` -/
+theorem coupled_number_cross_layer_links (N1 N2 : Nat) (s : Net) (hc : s.Consistent)
+    (hN : s.N = N1 + N2) :
+    numberCrossLayerLinks N1 N2 s = ((List.range N1).map fun i => ((List.range N2).map fun j =>
+        b2n (decide (s.θ < weighted s.nonLocal s.S s.damp i (N1 + j)))).sum).sum ∧
+      crossLinkDensityC N1 N2 s = (if N1 * N2 = 0 then none else
+        some ((numberCrossLayerLinks N1 N2 s : Rat) / ((N1 * N2 : Nat) : Rat))) := by
+  have h := coupled_cross_layer_adjacency N1 N2 s hc hN
+  unfold crossLayerAdjacency at h
+  constructor
+  · unfold numberCrossLayerLinks numberCrossLinks rowSums
+    rw [h]
+    simp [List.map_map, Function.comp_def]
+  · unfold crossLinkDensityC crossLinkDensity numberCrossLayerLinks
+    simp [nodes1, nodes2]
+
+/-- **the accessors after every history**: whatever setters and re-derivations ran, the
+cross-layer adjacency is the thresholded cross block at the *reported* threshold -/
+theorem coupled_after_history (N1 N2 : Nat) (directed : Bool) (S0 damp : Sim) (nl : Bool) (θ : Rat)
+    (ops : List Op) (s' : Net)
+    (h : (mkThreshold (N1 + N2) directed S0 damp nl θ).run ops = some s') :
+    crossLayerAdjacency N1 N2 s' = (List.range N1).map fun i => (List.range N2).map fun j =>
+      Pyunicorn.Cross.b2n (decide (s'.θ <
+        weighted s'.nonLocal (absSim (lastSim S0 ops)) damp i (N1 + j))) := by
+  have hc : (mkThreshold (N1 + N2) directed S0 damp nl θ).Consistent :=
+    (setThreshold_consistent _ θ).1
+  obtain ⟨c, ⟨d1, _, d3⟩, d4⟩ := consistent_after_history ops _ s' hc h
+  have hS : s'.S = absSim (lastSim S0 ops) := by rw [d4, ← curSim_absSim]; rfl
+  have hd : s'.damp = damp := d3
+  rw [coupled_cross_layer_adjacency N1 N2 s' c (by rw [d1]; rfl), hS, hd]
+
+example : let s : Net := mkThreshold 3 false (fun i j => if i = j then 1 else ((i + j : Nat) : Rat) / 4) (fun _ _ => 1) false (3/8)
+    crossLayerAdjacency 1 2 s = [[0, 1]] ∧ adjacency1 1 s = [[0]] ∧ adjacency2 1 2 s = [[0, 1], [1, 0]] ∧
+      numberCrossLayerLinks 1 2 s = 1 ∧ crossLinkDensityC 1 2 s = some (1/2) := by decide +kernel
 
 section Scripts
 open Script
